@@ -103,8 +103,22 @@ TYPES = ('P', 'S', 'NT', 'SS', 'SS2', 'D', 'list', 'dict', 'none', 'X')
 NSS = ('G', 'a', 'b', 'E')
 
 
+WEIGHTED_OPS = ('reg',) * 4 + ('unreg',) * 5 + ('regc',) * 2 + tuple(o for o in OPS if o not in ('reg', 'unreg', 'regc'))
+WEIGHTED_TYPES = ('P', 'P', 'P', 'S', 'S', 'NT', 'NT', 'D', 'SS', 'SS2', 'list', 'dict', 'none', 'X')
+
+
 def op_strategy():
     return st.tuples(st.sampled_from(OPS), st.sampled_from(TYPES), st.sampled_from(NSS)).map(list)
+
+
+@st.composite
+def histories(draw):
+    """histories concentrated on one namespace and a few types: registrations and unregistrations of *different*
+    types meet in the same namespace, the same type is registered / unregistered / re-registered"""
+    focus = draw(st.sampled_from(NSS))
+    nss = (focus,) * 3 + NSS
+    n = draw(st.integers(1, 12))
+    return [[draw(st.sampled_from(WEIGHTED_OPS)), draw(st.sampled_from(WEIGHTED_TYPES)), draw(st.sampled_from(nss))] for _ in range(n)]
 
 
 class C12(runner.Prop):
@@ -123,10 +137,10 @@ class C12(runner.Prop):
     tree_keys = ()
 
     def budget(self, tier):
-        return 300 if tier == 'quick' else 3000
+        return 1000 if tier == "quick" else 8000
 
     def strategy(self, tier):
-        return st.fixed_dictionaries({'hist': st.lists(op_strategy(), min_size=1, max_size=12),
+        return st.fixed_dictionaries({'hist': st.one_of(st.lists(op_strategy(), min_size=1, max_size=12), histories(), histories()),
                                       'warn': st.sampled_from(['default', 'default', 'error'])})
 
     def shrink_extra(self, case):
